@@ -5,7 +5,7 @@ CONSTANTS
   FAMS = {"alias"}
   TYPES = {"hash", "hset", "ivec", "list", "str"}
   DEPTH = 2
-  KINDS0 = {"G", "P", "L", "M", "B", "C", "EL", "EP", "EV", "EI", "EH", "ES", "K", "WL", "WM"}
+  KINDS0 = {"G", "P", "L", "M", "B", "C", "EL", "EP", "EV", "EI", "EH", "ES", "EM", "S", "PR", "K", "WL", "WM"}
   KINDS1 = {"M", "WM"}
   KINDSR = {"L", "WL"}
   KEEP1 = 1000
